@@ -2,7 +2,7 @@
     This file contains statements only; every proof is `exact <lemma>`. *)
 From Coq Require Import List NArith Lia.
 From Coq Require Import ZArith Bool.
-From PKO Require Import Util Base Owner Api Phase ObjectSet Chunk ChunkProofs Slices SlicesProofs.
+From PKO Require Import Util Base Owner Api Phase ObjectSet ObjectSetProofs Chunk ChunkProofs Slices SlicesProofs.
 From PKOCorr Require Import PhaseCorr SetCorr C14Corr C14SliceCorr.
 Import ListNotations.
 Local Open Scope N_scope.
@@ -295,3 +295,78 @@ Theorem C14_sliced_monitor_rejects_witness :
                      (objectset_pass false (inline_of (wit_world true LActive)) 1 1 10)) = false.
 Proof. exact xmonitor_witness. Qed.
 Print Assumptions C14_sliced_monitor_rejects_witness.
+
+(** * A referenced slice that cannot be loaded *)
+
+(** Active path: an ObjectSet that is neither deleted nor archived and references a slice that does not exist
+    (not created yet, deleted by a third party). For every world: the pass writes no member object and no
+    ObjectSetPhase object (status_keeps admits only finalizer requests, reads of phase objects and status requests),
+    every status request carries the stored Available / Succeeded conditions unchanged or Available=False, and the
+    member objects and phase objects are as before. *)
+Theorem C14_missing_slice_no_rollout :
+  forall force x kind ns name mem x' evs r,
+    find_set (sw_sets (xw_sw x)) kind ns name = Some mem ->
+    is_going mem = false ->
+    slices_exist (xs_store (xw_sl x)) (xw_refs x) mem = false ->
+    sliced_pass force x kind ns name = (x', evs, r) ->
+    Forall (status_keeps mem) (erase_slice_events evs) /\
+    w_store (sw_w (xw_sw x')) = w_store (sw_w (xw_sw x)) /\ sw_phases (xw_sw x') = sw_phases (xw_sw x).
+Proof. exact sliced_missing_slice_no_rollout. Qed.
+Print Assumptions C14_missing_slice_no_rollout.
+
+(** The same for the repaired wrapper (with or without a scripted read fault; the active path reads no fault). *)
+Theorem C14_missing_slice_no_rollout_fixed :
+  forall force fault x kind ns name mem x' evs r,
+    find_set (sw_sets (xw_sw x)) kind ns name = Some mem ->
+    is_going mem = false ->
+    slices_exist (xs_store (xw_sl x)) (xw_refs x) mem = false ->
+    sliced_pass_faulty force fault x kind ns name = (x', evs, r) ->
+    Forall (status_keeps mem) (erase_slice_events evs) /\
+    w_store (sw_w (xw_sw x')) = w_store (sw_w (xw_sw x)) /\ sw_phases (xw_sw x') = sw_phases (xw_sw x).
+Proof. exact sliced_missing_slice_no_rollout_fixed. Qed.
+Print Assumptions C14_missing_slice_no_rollout_fixed.
+
+(** Teardown path (repaired controller): a read of a referenced slice that fails with anything but NotFound
+    (timeout, 5xx, transport error) while a deleted / archived ObjectSet carrying the finalizer is torn down makes
+    the pass inert: no request at all - no member delete, the finalizer stays, Archived=True is not reported -
+    the world is unchanged and the pass ends with an error. Without a failing read the wrapper is
+    sliced_pass_fixed. *)
+Theorem C14_teardown_read_fault_inert :
+  forall force i x kind ns name mem,
+    find_set (sw_sets (xw_sw x)) kind ns name = Some mem ->
+    is_going mem = true -> os_fin mem = true ->
+    (i < slice_reads (set_sphases (xw_refs x) mem))%nat ->
+    sliced_pass_faulty force (Some i) x kind ns name = (x, [], SError).
+Proof. exact teardown_read_fault_inert. Qed.
+Print Assumptions C14_teardown_read_fault_inert.
+
+Theorem C14_no_fault_is_fixed :
+  forall force x kind ns name, sliced_pass_faulty force None x kind ns name = sliced_pass_fixed force x kind ns name.
+Proof. exact sliced_pass_faulty_none. Qed.
+Print Assumptions C14_no_fault_is_fixed.
+
+Example C14_read_fault_satisfiable :
+  sliced_pass_faulty false (Some 0%nat) (wit_world true LActive) 1 1 10 = (wit_world true LActive, [], SError) /\
+  has_delete (pass_events (sliced_pass_faulty false None (wit_world true LActive) 1 1 10)) = true.
+Proof. vm_compute. split; reflexivity. Qed.
+
+(** The run-time monitors for the two clauses accept every pass of the models. *)
+Theorem C14_missing_monitor_sound :
+  forall force x kind ns name il,
+    mmonitor (xcase_of_f None false force x kind ns name (sliced_pass force x kind ns name) il) = true.
+Proof. exact mmonitor_sound. Qed.
+Print Assumptions C14_missing_monitor_sound.
+
+Theorem C14_missing_monitor_sound_fixed :
+  forall force fault x kind ns name il,
+    mmonitor (xcase_of_f fault true force x kind ns name
+                         (sliced_pass_faulty force (option_map N.to_nat fault) x kind ns name) il) = true.
+Proof. exact mmonitor_sound_fixed. Qed.
+Print Assumptions C14_missing_monitor_sound_fixed.
+
+Theorem C14_read_fault_monitor_sound :
+  forall force fault x kind ns name il,
+    fmonitor (xcase_of_f fault true force x kind ns name
+                         (sliced_pass_faulty force (option_map N.to_nat fault) x kind ns name) il) = true.
+Proof. exact fmonitor_sound. Qed.
+Print Assumptions C14_read_fault_monitor_sound.
